@@ -20,6 +20,7 @@ import (
 	"bytes"
 	"errors"
 	"fmt"
+	"math"
 	"regexp"
 	"sort"
 	"strconv"
@@ -351,7 +352,14 @@ func (ctx *Context) evaluate() {
 	// ctx := &e.Context
 	var details []BufferSpan
 	numOpCountAdd := func(count IntType) bool {
-		e.NumOpCount += count
+		if count < 0 {
+			count = 0 // 负数不应减少已消耗的算力
+		}
+		if e.NumOpCount+count < e.NumOpCount {
+			e.NumOpCount = math.MaxInt // 溢出，视为超限
+		} else {
+			e.NumOpCount += count
+		}
 		if ctx.Config.OpCountLimit > 0 && e.NumOpCount > ctx.Config.OpCountLimit {
 			ctx.Error = errors.New("允许算力上限")
 			return true
